@@ -2,7 +2,7 @@
    A case is (chunks, observed); [observed] is what the implementation returned for
    concatStreamReader-style concatenation of the chunks, canonicalised by the harness:
    OVal v | OErr | OPanic.  Error messages are not compared (class only). *)
-From Eino Require Import Base.Util Model.Concat Model.ConcatMsg Model.ConcatOrder Model.ConcatUser Model.ConcatMsgMap Model.ConcatStream Model.ConcatDeep Model.ConcatDeepOrder.
+From Eino Require Import Base.Util Model.Concat Model.ConcatMsg Model.ConcatOrder Model.ConcatUser Model.ConcatMsgMap Model.ConcatStream Model.ConcatDeep Model.ConcatDeepOrder Model.ConcatOrderList.
 
 (* the registry of application-registered concat functions: the ones the harness registers *)
 #[local] Existing Instance harness_user.
@@ -188,7 +188,8 @@ Definition bad (c : ccase) : bool :=
       negb (obs_eqb (obs_of (concat_stream chunks)) o) || negb (obs_eqb (obs_of (concat_stream_o (rev_sched 4) chunks)) o)
   | CaseMsg api chunks o =>
       negb (mobs_eqb (mobs_of (run_msg api chunks)) o) || negb (mobs_eqb (mobs_of (run_msg_o api chunks)) o)
-  | CaseMsgList chunks o => negb (lobs_eqb (lobs_of (msglist_stream chunks)) o)
+  | CaseMsgList chunks o =>
+      negb (lobs_eqb (lobs_of (msglist_stream chunks)) o) || negb (lobs_eqb (lobs_of (msglist_stream_o (@rev Z) (rev_sched 4) chunks)) o)
   | CaseMsgMap chunks o =>
       negb (kobs_eqb (kobs_of (mmap_stream chunks)) o)
       || negb (dobs_eqb (dobs_of (dmap_stream (map d_of_mmap chunks)))
